@@ -36,6 +36,9 @@ Definition touched (w : world) (o : op) : list addr :=
   | OFacCreatePair c _ _ _ _ _ _ _ => [c]
   | OFacAddNative c _ _ => [c]
   | OFacMigrate c _ => [c]
+  | OSendFrom _ sp ow target _ h => ow :: hook_touched w target sp h
+  | OBurnFrom _ sp ow _ => [sp; ow]
+  | ODecreaseAllowance _ ow sp _ => [ow; sp]
   end.
 (* balances of every account outside [l] are unchanged *)
 Definition frame (l : list addr) (w w' : world) : Prop := forall a, ~ In a l -> forall x, bal w' x a = bal w x a.
@@ -239,6 +242,21 @@ Proof.
   destruct (_ <? W128); [|discriminate]. inversion Hf. reflexivity.
 Qed.
 
+Theorem tok_burn_from_frame : forall w ta sp ow n w', with_token w ta (fun t => tok_burn_from t sp ow n) = Ok w' -> frame [ow] w w'.
+Proof.
+  intros w ta sp ow n w' H. eapply with_token_frame; [exact H|].
+  intros t t' Hf a Ha. cbv beta in Hf. apply tok_burn_from_effect in Hf.
+  destruct Hf as (al & _ & _ & _ & _ & _ & _ & _ & _ & Hb).
+  apply not_in_cons in Ha. destruct Ha as (Ha & _). apply N.eqb_neq in Ha. rewrite Hb, Ha. reflexivity.
+Qed.
+
+Theorem tok_decrease_allowance_frame : forall w ta ow sp n w', with_token w ta (fun t => tok_decrease_allowance t ow sp n) = Ok w' -> frame [] w w'.
+Proof.
+  intros w ta ow sp n w' H. eapply with_token_frame; [exact H|].
+  intros t t' Hf a _. cbv beta in Hf. apply tok_decrease_allowance_effect in Hf.
+  destruct Hf as (_ & al & _ & Hb & _). rewrite Hb. reflexivity.
+Qed.
+
 (* ------------------------------------------------------------------------------------ *)
 (* pair handlers                                                                         *)
 (* ------------------------------------------------------------------------------------ *)
@@ -432,6 +450,29 @@ Proof.
     cbn [hook_touched] in *. eapply frame_step; [exact F1 | exact H | exact I1 | auto].
 Qed.
 
+Lemma cw20_dispatch_frame w1 ta sd target n h w' : cw20_dispatch w1 ta sd target n h = Ok w' ->
+  frame (hook_touched w1 target sd h) w1 w'.
+Proof.
+  intros H. unfold cw20_dispatch in H. destruct (w_pairs w1 target) as [ps|].
+  - apply pair_receive_frame in H. exact H.
+  - destruct (target =? w_rtr w1) eqn:Et; [|discriminate]. apply N.eqb_eq in Et.
+    destruct h as [| |ops m to|]; try discriminate.
+    apply router_exec_ops_frame in H. rewrite <- Et in H. cbn [hook_touched]. exact H.
+Qed.
+
+Theorem cw20_send_from_frame : forall w ta sp ow target n h w', cw20_send_from w ta sp ow target n h = Ok w' ->
+  frame (ow :: hook_touched w target sp h) w w'.
+Proof.
+  intros w ta sp ow target n h w' H. apply cw20_send_from_inv in H. destruct H as (w1 & H1 & H).
+  pose proof (tok_transfer_from_frame _ _ _ _ _ _ _ H1) as F1. pose proof (with_token_keeps _ _ _ _ H1) as (Kreg & Krtr & _).
+  apply cw20_dispatch_frame in H.
+  assert (E : hook_touched w1 target sp h = hook_touched w target sp h).
+  { destruct h; cbn [hook_touched]; try reflexivity. rewrite (route_pairs_reg _ _ _ Kreg). reflexivity. }
+  rewrite E in H. eapply frame_step; [exact F1 | exact H | | ].
+  - destruct h; incl_tac.
+  - intros a Ha. right. exact Ha.
+Qed.
+
 (* ------------------------------------------------------------------------------------ *)
 (* factory                                                                               *)
 (* ------------------------------------------------------------------------------------ *)
@@ -588,6 +629,9 @@ Proof.
   - (* OFacUpdateConfig *) apply same_bal_frame. eapply fac_update_config_same_bal. exact H.
   - (* OFacAddNative *) apply same_bal_frame. eapply fac_add_native_same_bal. exact H.
   - (* OFacMigrate *) apply same_bal_frame. eapply fac_migrate_pair_same_bal. exact H.
+  - (* OSendFrom *) eapply cw20_send_from_frame. exact H.
+  - (* OBurnFrom *) apply tok_burn_from_frame in H. eapply frame_mono; [|exact H]. incl_tac.
+  - (* ODecreaseAllowance *) apply tok_decrease_allowance_frame in H. eapply frame_mono; [|exact H]. incl_tac.
 Qed.
 
 (* ORIGINAL STATEMENT (false for OFacCreatePair, see [exec_frame_false] below):
